@@ -273,8 +273,9 @@ func (dm *DMap) checkPutConditions(e *env) error {
 		}
 	}
 
-	// Only set the key if it already exists.
-	if e.putConfig.HasXX && !e.fragment.storage.Check(e.hkey) {
+	// Only set the key if it already exists. An expired key that has not been
+	// evicted yet does not exist.
+	if e.putConfig.HasXX {
 		ttl, err := e.fragment.storage.GetTTL(e.hkey)
 		if err == nil {
 			if isKeyExpired(ttl) {
